@@ -650,7 +650,13 @@ def bbox_fn(prog: Program, rep: Report, C):
             t = fa.sym.term(d[0][1], d[0][0])
             cl = [y for y in ast.walk(d[0][1]) if isinstance(y, ast.Call) and isinstance(y.func, ast.Attribute)
                   and y.func.attr == "clamp" and y.args]
-            if len(cl) == 1:
+            # the clamp is the edge itself (casts aside); a clamp buried in further arithmetic (a mirrored spelling such as
+            # w - clamp(w - c - r, min=0)) is another construction: not decided
+            top_ = d[0][1]
+            while isinstance(top_, ast.Call) and isinstance(top_.func, ast.Attribute) and top_.func.attr in (
+                    "type", "long", "int", "to", "float") and not (top_.func.attr == "clamp"):
+                top_ = top_.func.value
+            if len(cl) == 1 and top_ is cl[0]:
                 call = cl[0]
                 kws = {k.arg: fa.sym.term(k.value, d[0][0]) for k in call.keywords}
                 dims = _dims_of(fa, call.args[0], d[0][0])
